@@ -94,6 +94,8 @@ type nrNodeCfg struct {
 	Uneven   bool        `json:"uneven,omitempty"`
 	SkewS    int64       `json:"skew_s,omitempty"` // koordlet clock minus controller clock, seconds
 	HostApps []nrHostApp `json:"host_apps,omitempty"`
+	// AnnoRes: the node is registered with a node.koordinator.sh/reservation annotation (What = anno_res)
+	AnnoRes *nrNodeChange `json:"anno_res,omitempty"`
 }
 
 type nrCfg struct {
@@ -129,6 +131,9 @@ type nrNodeChange struct {
 	Strat   *nrStrategy `json:"strat,omitempty"`
 	Pool    string      `json:"pool,omitempty"`
 	Removal bool        `json:"removal,omitempty"`
+	// anno_res: applyPolicy of the reservation annotation ("" | Default | ReservedCPUsOnly | an unknown value). It says how
+	// the reserved CPUs are exposed to the scheduler / pods, never how much is reserved.
+	Policy string `json:"policy,omitempty"`
 }
 
 type nrReport struct {
@@ -277,6 +282,17 @@ func nrGenPod(g *sim.Rng, zones int) *nrPodSpec {
 	return p
 }
 
+// nrGenAnnoRes fills a node reservation annotation: amounts from below the kubelet reservation to well above it and
+// above typical system usage, as a resource list and / or a reserved cpuset, under every applyPolicy the API defines.
+func nrGenAnnoRes(g *sim.Rng, ch *nrNodeChange) {
+	ch.What = "anno_res"
+	ch.CPU, ch.Mem = g.PickI64(0, 500, 2000, 8000, 16000), g.PickI64(0, nrGi, 8*nrGi, 32*nrGi)
+	if g.Bool(0.3) {
+		ch.CPUs = g.PickInt(1, 2, 4, 8)
+	}
+	ch.Policy = g.Pick("", "", "Default", "ReservedCPUsOnly", "ReservedCPUsOnly", "SomethingNew")
+}
+
 func nrGenReport(g *sim.Rng) *nrReport {
 	r := &nrReport{PNew: g.PickInt(0, 30, 100), POld: g.PickInt(100, 100, 90, 50), PGone: g.PickInt(0, 50, 100), SysKind: g.Intn(8)}
 	switch g.Intn(10) {
@@ -322,6 +338,10 @@ func (nrEngine) Generate(p *sim.Plan, g *sim.Rng) {
 		}
 		for j, k := 0, g.PickInt(0, 0, 1, 2); j < k; j++ {
 			n.HostApps = append(n.HostApps, nrHostApp{Name: []string{"yarn", "agent", "hdfs"}[j], Prio: g.Pick("prod", "mid", "batch")})
+		}
+		if g.Bool(0.25) {
+			n.AnnoRes = &nrNodeChange{}
+			nrGenAnnoRes(g, n.AnnoRes)
 		}
 		cfg.Nodes = append(cfg.Nodes, n)
 	}
@@ -399,11 +419,7 @@ func (nrEngine) Generate(p *sim.Plan, g *sim.Rng) {
 			ch := &nrNodeChange{}
 			switch y := g.Intn(20); {
 			case y < 5:
-				ch.What = "anno_res"
-				ch.CPU, ch.Mem = g.PickI64(0, 500, 2000, 8000), g.PickI64(0, nrGi, 8*nrGi)
-				if g.Bool(0.3) {
-					ch.CPUs = g.PickInt(1, 2, 4)
-				}
+				nrGenAnnoRes(g, ch)
 				ch.Removal = g.Bool(0.15)
 			case y < 8:
 				ch.What = "kubelet_res"
